@@ -224,18 +224,20 @@ fn check_case(c: &Case) -> Option<(String, String)> {
         let sv = SourceView::new(c.program.as_str().into());
         let smi = SourceMapIndex::new(None, vec![SourceMapSection::new((0, 0), None, Some(DecodedMap::Regular(sm.clone())))]);
         let dm = DecodedMap::Regular(sm.clone());
+        let dmi = DecodedMap::Index(SourceMapIndex::new(None, vec![SourceMapSection::new((0, 0), None, Some(DecodedMap::Regular(sm.clone())))]));
         for q in &c.queries {
             let a = sm.get_original_function_name(q.0, q.1, &q.2, &sv).map(str::to_string);
             let b = smi.get_original_function_name(q.0, q.1, &q.2, &sv).map(str::to_string);
             let cc = sm.lookup_token(q.0, q.1).and_then(|t| sv.get_original_function_name(t, &q.2)).map(str::to_string);
             let d = dm.get_original_function_name(q.0, q.1, Some(&q.2), Some(&sv)).map(str::to_string);
+            let di = dmi.get_original_function_name(q.0, q.1, Some(&q.2), Some(&sv)).map(str::to_string);
             // a fresh view per query must answer the same (no dependence on cached lines)
             let e = sm.get_original_function_name(q.0, q.1, &q.2, &SourceView::new(c.program.as_str().into())).map(str::to_string);
             if !c.assert_results {
                 continue;
             }
-            if a != b || a != cc || a != d || a != e {
-                return Some(("entry-points-disagree".into(), format!("query {q:?}: SourceMap {a:?}, SourceMapIndex {b:?}, SourceView {cc:?}, DecodedMap {d:?}, fresh view {e:?}")));
+            if a != b || a != cc || a != d || a != e || a != di {
+                return Some(("entry-points-disagree".into(), format!("query {q:?}: SourceMap {a:?}, SourceMapIndex {b:?}, SourceView {cc:?}, DecodedMap::Regular {d:?}, DecodedMap::Index {di:?}, fresh view {e:?}")));
             }
             if let Some(want) = rfuncname(c, q) {
                 if a != want {
@@ -527,7 +529,7 @@ pub fn run(run: &mut Run) -> Finish {
     });
     Finish {
         level: "exploration",
-        rule: "E1: minified programs generated from a statement grammar (function declarations, var statements, calls, a non-ASCII string literal; names a, ab, é, a𝒜 (astral), $_, a<ZWJ>b; 1-3 statements, every line-break placement), with every subset of <= 4 tokens placed on identifier starts, keywords, '(' and at / past the end of each line and on a missing line and original names attached to two of every three tokens; every token position and its successor column x every pool name + non-identifiers, through SourceMap, SourceMapIndex, SourceView, DecodedMap and a fresh view. Oracle RFuncName: nothing if the name is not an identifier; walk back from the looked-up token, token text = identifier at the token's UTF-16 column, first token whose text is the name and whose predecessor's text is 'function' yields its original name. A token whose column lies inside a surrogate pair may read as either neighbouring boundary, but must not change what aligned tokens of the line read (slice 5: every such column next to tokens on the declarations). Whitespace columns: crash-freedom only, every column. Window: name-token rank <= 126 must resolve, >= 128 must not, 127 not asserted. Distinct by construction; non-trivial = the program/map/queries contain a resolvable function pair.".into(),
+        rule: "E1: minified programs generated from a statement grammar (function declarations, var statements, calls, a non-ASCII string literal; names a, ab, é, a𝒜 (astral), $_, a<ZWJ>b; 1-3 statements, every line-break placement), with every subset of <= 4 tokens placed on identifier starts, keywords, '(' and at / past the end of each line and on a missing line and original names attached to two of every three tokens; every token position and its successor column x every pool name + non-identifiers, through SourceMap, SourceMapIndex, SourceView, DecodedMap (regular and index variant) and a fresh view. Oracle RFuncName: nothing if the name is not an identifier; walk back from the looked-up token, token text = identifier at the token's UTF-16 column, first token whose text is the name and whose predecessor's text is 'function' yields its original name. A token whose column lies inside a surrogate pair may read as either neighbouring boundary, but must not change what aligned tokens of the line read (slice 5: every such column next to tokens on the declarations). Whitespace columns: crash-freedom only, every column. Window: name-token rank <= 126 must resolve, >= 128 must not, 127 not asserted. Distinct by construction; non-trivial = the program/map/queries contain a resolvable function pair.".into(),
         assumptions: vec!["identifier classification of the model is exact for the characters used (ASCII, é, 𝒜, $, _, ZWJ, ZWNJ)".into(), "with several tokens at one position the answer is asserted only when every order of the tied tokens (and every starting token an inexact lookup may land on) gives the same one".into()],
         coverage_extra: json!({"names": names_pool()}),
     }
